@@ -93,7 +93,7 @@ def run(replay=None):
     with core.Lock('coq'):
         rep, tlog = core.translate()
     for u in rep['untranslatable']:
-        if u['group'] == 'Tags':
+        if u['group'] in ('Tags', 'ArrayIO'):
             chk.obligation_broken('translation of ' + u['name'], u['why'])
     chk.cov['format_constants_in_source'] = {k: rep.get('tags', {}).get(k) for k in ('magic', 'footer')}
     chk.prove('Properties_C07.v')
